@@ -33,6 +33,12 @@ Definition to_dao (enc : Z -> list Z -> list Z) (alts : list (Z * Z)) (l : lheap
 
 Definition idc : Z -> list Z -> list Z := fun _ s => s.
 
+Fixpoint zlookg {B : Type} (c : Z) (l : list (Z * B)) : option B :=
+  match l with
+  | [] => None
+  | (k, v) :: t => if Z.eqb c k then Some v else zlookg c t
+  end.
+
 Lemma zassoc_none c l : zmem c (map fst l) = false -> zassoc c l = None.
 Proof.
   induction l as [|[k v] t IH]; simpl; auto. intros H. apply orb_false_iff in H. destruct H as [H1 H2].
